@@ -29,4 +29,5 @@ alarm_filter = ep.alarm_filter
 def nontrivial(stream, case, out):
     t = ec.trace_of(out)
     return " P " in " " + t and ("a=11" in t) and ("a=10" in t)
+
 valid_case = ep.valid_case
